@@ -20,8 +20,8 @@ def flowFunds (s : St) (a : Nat) : Nat :=
 
 /-- The custody equation (the statement of the property): the contract's LP balance is exactly everything
     staked (`staked s` = the open and closed positions of ALL addresses, summed over the two storage maps)
-    plus the unclaimed funds of the flows denominated in the LP asset, plus `kept` — LP-denom funds that
-    were attached to calls without being asked for (zero unless somebody donates; see `strayOf`). -/
+    plus the unclaimed funds of the flows denominated in the LP asset, plus `kept` — LP-denom coins that
+    were attached to calls that take no LP (zero unless somebody donates; see `strayOf`). -/
 def CustodyEq (s : St) (kept : Nat) : Prop :=
   balOf s INC 0 = staked s + flowFunds s 0 + kept
 
@@ -34,10 +34,11 @@ theorem flowFunds_eq (s : St) (a : Nat) : flowFunds s a = ffSum a s.flows := (ff
     expansions, resets, claims and closes) — the contract's LP balance equals
     what it held at instantiation + everything staked + the unclaimed funds of the LP-asset flows
     + `keptLp`, the LP-denom funds attached to successful calls that did not ask for them. `keptLp` adds
-    `strayOf` per successful operation: LP coins attached to `claim` / `withdraw` / `close_position` /
-    `snapshot` / `close_flow` / flow operations in other assets (donations), and — the recorded known
-    finding C11-lp-denom-fee-overpaid-kept — the over-paid part of an `open_flow` fee charged in a native
-    LP denom when the flow asset is a cw20 token (a native flow asset gets the excess refunded). -/
+    `strayOf` per successful operation, and `strayOf` counts donations only: native LP coins attached to
+    `claim` / `withdraw` / `close_position` / `snapshot` / `close_flow`, to an `expand_flow` in another
+    asset, or to an `open_flow` whose flow asset and fee asset are both not the LP. An `open_flow` whose
+    fee is charged in the LP denom contributes nothing whatever is attached: an over-paid fee is refunded
+    for every kind of flow asset (`overpaid_fee_refunded`). -/
 theorem custody_eq_counted (c : Cfg) (e0 : Nat) (bal : Bal) (ops : List (Env × Op))
     (hs : SendersOk ops) (ho : OffersOk ops) (he : EpochsFrom e0 ops) :
     CustodyEq (reach c (init e0 bal) ops) (balOf (init e0 bal) INC 0 + keptLp c (init e0 bal) ops) := by
@@ -72,7 +73,11 @@ theorem staked_eq_positionsOf (c : Cfg) (e0 : Nat) (bal : Bal) (ops : List (Env 
   unfold openOf closedOf
   rw [h1, h2]
 
-/-- no operation of the history carries LP-denom funds its handler does not ask for -/
+/-- no operation of the history carries LP-denom coins into a handler that takes no LP: no native LP coin is
+    attached to `claim`, `withdraw`, `close_position`, `snapshot`, `close_flow`, to an `expand_flow` of a flow
+    in another asset, or to an `open_flow` with neither its flow asset nor its fee in the LP. It excludes
+    nothing else — in particular not an over-paid `open_flow` fee in the LP denom, for any flow asset
+    (`noStrayLp_openFlow_fee`). -/
 def NoStrayLp (c : Cfg) (ops : List (Env × Op)) : Prop := ∀ p ∈ ops, strayOf c p.1 p.2 = 0
 
 theorem keptLp_zero {c : Cfg} : ∀ (ops : List (Env × Op)) (s : St), NoStrayLp c ops → keptLp c s ops = 0 := by
@@ -85,7 +90,15 @@ theorem keptLp_zero {c : Cfg} : ∀ (ops : List (Env × Op)) (s : St), NoStrayLp
     rw [ih _ (fun q hq => h q (List.mem_cons_of_mem _ hq)), h p List.mem_cons_self]
     split <;> rfl
 
-/-- **custody_eq**, over ALL histories without stray LP funds, from a contract that starts with no LP:
+/-- an `open_flow` under a fee charged in the LP asset never counts as stray LP, whatever is attached to it
+    (over-paid fee included) and whatever the flow asset is -/
+theorem noStrayLp_openFlow_fee (c : Cfg) (e : Env) (a amt : Nat) (st en : Option Nat) (hfee : c.feeAsset = 0) :
+    strayOf c e (.openFlow a amt st en) = 0 := by
+  simp only [strayOf, if_pos hfee]
+  split <;> rfl
+
+/-- **custody_eq**, over ALL histories without donated LP coins (`NoStrayLp`: no native LP coin attached to
+    a call that takes no LP; over-paid flow fees are NOT excluded), from a contract that starts with no LP:
     LP balance = Σ open positions + Σ closed positions + Σ unclaimed funds of the LP-asset flows, exactly,
     after every operation. -/
 theorem custody_eq (c : Cfg) (e0 : Nat) (bal : Bal) (ops : List (Env × Op))
@@ -117,6 +130,22 @@ theorem custody_eq_step {c : Cfg} {s s' : St} {e : Env} {op : Op} {K : Nat} (hI 
   simp only [if_true] at hb
   rw [flowFunds_eq]
   omega
+
+/-- **overpaid_fee_refunded**: under a flow fee charged in a native denom, an accepted `open_flow` — with ANY
+    amount of the fee denom attached, for a flow asset of ANY kind (native or cw20) — lowers the sender's
+    balance of the fee denom by exactly the fee, plus the flow amount `amt - fee` when the flow is opened in
+    the fee denom itself; the collector's balance of it rises by exactly the fee and the contract's by exactly
+    that flow amount (by nothing when the flow asset is another one): the contract keeps none of an
+    over-payment, every unit beyond fee (+ flow) is back with the sender when the transaction ends.
+    Any state, hence after any history. -/
+theorem overpaid_fee_refunded {c : Cfg} {s s' : St} {e : Env} {a amt : Nat} {st en : Option Nat}
+    (hnf : c.native c.feeAsset = true) (hs : e.sender ≠ INC) (hsc : e.sender ≠ COLLECTOR)
+    (hn : (keysOf e.offers).Nodup) (h : step c s e (.openFlow a amt st en) = .ok s') :
+    balOf s' e.sender c.feeAsset + c.feeAmt + (if a = c.feeAsset then amt - c.feeAmt else 0)
+        = balOf s e.sender c.feeAsset
+    ∧ balOf s' INC c.feeAsset = balOf s INC c.feeAsset + (if a = c.feeAsset then amt - c.feeAmt else 0)
+    ∧ balOf s' COLLECTOR c.feeAsset = balOf s COLLECTOR c.feeAsset + c.feeAmt :=
+  step_openFlow_fee_refund hnf hs hsc hn h
 
 /-- **helper_keeps_nothing**: after a deposit through the frontend helper (any state, any depositor other
     than the helper itself) the helper holds no LP at all — its whole LP balance went into the depositor's
@@ -239,5 +268,21 @@ example :
     let s := reach c (init 1 [((1, 0), 5000), ((4, 0), 600000)]) ops
     (∀ p ∈ ops, p.1.sender ≠ INC) ∧ (∀ p ∈ ops, strayOf c p.1 p.2 = 0)
     ∧ (balOf s INC 0, staked s, flowFunds s 0, balOf s COLLECTOR 0) = (501000, 1000, 500000, 1000) := by decide
+
+/-- non-vacuity of `overpaid_fee_refunded` and of `custody_eq` with an over-paid fee (the repaired finding
+    C11-lp-denom-fee-overpaid-kept): native LP = fee denom, fee 1 000; dave opens a flow of 5 000 in the cw20
+    asset 3 with 1 700 LP attached. The operation is accepted, `strayOf` is 0, dave's LP falls by exactly the
+    fee (10 000 → 9 000: the 700 came back), the collector gets 1 000, and the contract's LP balance is still
+    exactly the staked 1 000 (it holds the 5 000 of asset 3 for the flow). -/
+example :
+    let c : Cfg := { lpNative := true, feeAsset := 0, feeAmt := 1000, maxFlows := 3, buffer := 5, minDur := 86400, maxDur := 31556926 }
+    let ops : List (Env × Op) :=
+      [({ epoch := 1, time := 100, sender := 1, offers := [(0, 1000)] }, .openPos 1000 86400 none),
+       ({ epoch := 1, time := 100, sender := 4, offers := [(0, 1700), (3, 5000)] }, .openFlow 3 5000 none (some 10))]
+    let s0 := init 1 [((1, 0), 5000), ((4, 0), 10000), ((4, 3), 8000)]
+    let s := reach c s0 ops
+    (∀ p ∈ ops, strayOf c p.1 p.2 = 0) ∧ s.flows.length = 1
+    ∧ (balOf s 4 0, balOf s COLLECTOR 0, balOf s INC 0, staked s, flowFunds s 0, balOf s INC 3, balOf s 4 3)
+        = (9000, 1000, 1000, 1000, 0, 5000, 3000) := by decide
 
 end WW.C11
